@@ -6,14 +6,112 @@ use vstd::std_specs::iter::IteratorSpec;
 use std::collections::HashMap;
 verus! {
 //@include std_f64.rs
+//@include std_specs.rs
 //@include std_iter.rs
 //@include ws_types.rs
 //@include cols_vocab.rs
 
 impl Worksheet {
+
+//@fn base/src/worksheet.rs Worksheet::get_column_style
+//@attr
+#[verifier::loop_isolation(false)]
+//@spec
+    ensures
+        r.is_err() <==> !(1 <= column <= 16384),
+        r.is_ok() ==> r.unwrap() == style_at(self.cols@, column as int),
+//@rewrite `-> Result<Option<i32>, String>` => `-> (r: Result<Option<i32>, String>)`
+//@after `let cols = &self.cols;`
+        proof { broadcast use group_f64_total; }
+//@loop 1 it
+            invariant
+                forall|k: int| 0 <= k < it.index@ ==> !covers(#[trigger] cols@[k], column as int),
+//@after `let max = col.max;`
+            proof {
+                if column >= min && column <= max {
+                    assert(is_first_cover(cols@, column as int, it.index@));
+                    lemma_first_cover_unique(cols@, column as int, it.index@);
+                }
+            }
+//@before `Ok(None)`
+        proof { lemma_no_cover(cols@, column as int); }
+//@end
+
+//@fn base/src/worksheet.rs Worksheet::is_column_hidden
+//@attr
+#[verifier::loop_isolation(false)]
+//@spec
+    ensures
+        r.is_err() <==> !(1 <= column <= 16384),
+        r.is_ok() ==> r.unwrap() == hidden_at(self.cols@, column as int),
+//@rewrite `-> Result<bool, String>` => `-> (r: Result<bool, String>)`
+//@after `let cols = &self.cols;`
+        proof { broadcast use group_f64_total; }
+//@loop 1 it
+            invariant
+                forall|k: int| 0 <= k < it.index@ ==> !covers(#[trigger] cols@[k], column as int),
+//@after `let max = col.max;`
+            proof {
+                if column >= min && column <= max {
+                    assert(is_first_cover(cols@, column as int, it.index@));
+                    lemma_first_cover_unique(cols@, column as int, it.index@);
+                }
+            }
+//@before `Ok(false)`
+        proof { lemma_no_cover(cols@, column as int); }
+//@end
+
+//@fn base/src/worksheet.rs Worksheet::get_actual_column_width
+//@attr
+#[verifier::loop_isolation(false)]
+//@spec
+    ensures
+        r.is_err() <==> !(1 <= column <= 16384),
+        r.is_ok() ==> actual_width_rel(self.cols@, column as int, r.unwrap()),
+//@rewrite `-> Result<f64, String>` => `-> (r: Result<f64, String>)`
+//@after `let cols = &self.cols;`
+        proof { broadcast use group_f64_total; }
+//@loop 1 it
+            invariant
+                forall|k: int| 0 <= k < it.index@ ==> !covers(#[trigger] cols@[k], column as int),
+//@after `let max = col.max;`
+            proof {
+                if column >= min && column <= max {
+                    assert(is_first_cover(cols@, column as int, it.index@));
+                    lemma_first_cover_unique(cols@, column as int, it.index@);
+                }
+            }
+//@before `Ok(constants::DEFAULT_COLUMN_WIDTH)`
+        proof { if !(exists|i: int| is_first_cover(cols@, column as int, i)) { } }
+//@end
+
+//@fn base/src/worksheet.rs Worksheet::get_column_width
+//@attr
+#[verifier::loop_isolation(false)]
+//@spec
+    ensures
+        r.is_err() <==> !(1 <= column <= 16384),
+        r.is_ok() ==> (if hidden_at(self.cols@, column as int) { r.unwrap() == 0.0f64 } else { actual_width_rel(self.cols@, column as int, r.unwrap()) }),
+//@rewrite `-> Result<f64, String>` => `-> (r: Result<f64, String>)`
+//@after `let cols = &self.cols;`
+        proof { broadcast use group_f64_total; }
+//@loop 1 it
+            invariant
+                forall|k: int| 0 <= k < it.index@ ==> !covers(#[trigger] cols@[k], column as int),
+//@after `let max = col.max;`
+            proof {
+                if column >= min && column <= max {
+                    assert(is_first_cover(cols@, column as int, it.index@));
+                    lemma_first_cover_unique(cols@, column as int, it.index@);
+                }
+            }
+//@before `Ok(constants::DEFAULT_COLUMN_WIDTH)`
+        proof { if !(exists|i: int| is_first_cover(cols@, column as int, i)) { } }
+//@end
 //@fn base/src/worksheet.rs Worksheet::set_column_width_and_style
 //@attr
 #[verifier::loop_isolation(false)]
+#[verifier::spinoff_prover]
 //@spec
     requires cols_wf(old(self).cols@)
     ensures
@@ -71,10 +169,8 @@ impl Worksheet {
             assert(cols@ =~= oc);
 //@before `} else {`
             proof {
-                let mids = (if column != min { seq![pre] } else { Seq::<Col>::empty() }).push(col)
-                    + (if column != max { seq![post] } else { Seq::<Col>::empty() });
-                assert(cols@ =~= oc.subrange(0, k) + mids + oc.subrange(k + 1, oc.len() as int));
-                lemma_split(oc, cols@, k, column as int, pre, col, post);
+                assert(cols@ =~= oc.subrange(0, k) + split_mids(oc[k], column as int, pre, col, post, true) + oc.subrange(k + 1, oc.len() as int));
+                lemma_split(oc, cols@, k, column as int, pre, col, post, true);
             }
 //@after `} else {`
             proof {
@@ -100,6 +196,158 @@ impl Worksheet {
                         let t = it.iter.remaining()[j - index];
                     }
                 }
+//@end
+
+//@fn base/src/worksheet.rs Worksheet::set_column_width
+//@attr
+#[verifier::spinoff_prover]
+//@spec
+    requires cols_wf(old(self).cols@)
+    ensures
+        cols_wf(final(self).cols@),
+        r.is_err() ==> final(self).cols@ =~= old(self).cols@,
+        r.is_ok() ==> 1 <= column <= 16384
+            && same_view_except(old(self).cols@, final(self).cols@, column as int)
+            && style_at(final(self).cols@, column as int) == style_at(old(self).cols@, column as int)
+            && hidden_at(final(self).cols@, column as int) == hidden_at(old(self).cols@, column as int)
+            && stores_width(final(self).cols@, column as int, width),
+//@rewrite `-> Result<(), String>` => `-> (r: Result<(), String>)`
+//@rewrite `self.set_column_width_and_style(column, width, hidden, style)` => `let r = self.set_column_width_and_style(column, width, hidden, style); proof { lemma_after_set(old(self).cols@, self.cols@, column as int, r.is_ok()); } r`
+//@end
+
+//@fn base/src/worksheet.rs Worksheet::set_column_hidden
+//@attr
+#[verifier::spinoff_prover]
+//@spec
+    requires cols_wf(old(self).cols@)
+    ensures
+        cols_wf(final(self).cols@),
+        r.is_err() ==> final(self).cols@ =~= old(self).cols@,
+        r.is_ok() ==> 1 <= column <= 16384
+            && same_view_except(old(self).cols@, final(self).cols@, column as int)
+            && style_at(final(self).cols@, column as int) == style_at(old(self).cols@, column as int)
+            && hidden_at(final(self).cols@, column as int) == hidden
+            && (exists|a: f64| actual_width_rel(old(self).cols@, column as int, a) && stores_width(final(self).cols@, column as int, a)),
+//@rewrite `-> Result<(), String>` => `-> (r: Result<(), String>)`
+//@rewrite `self.set_column_width_and_style(column, width, hidden, style)` => `let r = self.set_column_width_and_style(column, width, hidden, style); proof { lemma_after_set(old(self).cols@, self.cols@, column as int, r.is_ok()); } r`
+//@end
+
+//@fn base/src/worksheet.rs Worksheet::set_column_style
+//@attr
+#[verifier::spinoff_prover]
+//@spec
+    requires cols_wf(old(self).cols@)
+    ensures
+        cols_wf(final(self).cols@),
+        r.is_err() ==> final(self).cols@ =~= old(self).cols@,
+        r.is_ok() ==> 1 <= column <= 16384
+            && same_view_except(old(self).cols@, final(self).cols@, column as int)
+            && style_at(final(self).cols@, column as int) == Some(style_index)
+            && hidden_at(final(self).cols@, column as int) == hidden_at(old(self).cols@, column as int)
+            && (exists|a: f64| actual_width_rel(old(self).cols@, column as int, a) && stores_width(final(self).cols@, column as int, a)),
+//@rewrite `-> Result<(), String>` => `-> (r: Result<(), String>)`
+//@rewrite `self.set_column_width_and_style(column, width, hidden, Some(style_index))` => `let r = self.set_column_width_and_style(column, width, hidden, Some(style_index)); proof { lemma_after_set(old(self).cols@, self.cols@, column as int, r.is_ok()); } r`
+//@end
+
+
+//@fn base/src/worksheet.rs Worksheet::delete_column_style
+//@attr
+#[verifier::loop_isolation(false)]
+#[verifier::spinoff_prover]
+//@spec
+    requires cols_wf(old(self).cols@)
+    ensures
+        cols_wf(final(self).cols@),
+        r.is_err() <==> !(1 <= column <= 16384),
+        r.is_err() ==> final(self).cols@ =~= old(self).cols@,
+        r.is_ok() ==> same_view_except(old(self).cols@, final(self).cols@, column as int)
+            && style_at(final(self).cols@, column as int) == None::<i32>
+            && hidden_at(final(self).cols@, column as int) == hidden_at(old(self).cols@, column as int)
+            && (forall|a: f64| actual_width_rel(old(self).cols@, column as int, a) <==> actual_width_rel(final(self).cols@, column as int, a)),
+//@rewrite `-> Result<(), String>` => `-> (r: Result<(), String>)`
+//@after `let cols = &mut self.cols;`
+        let ghost oc = cols@;
+        assert(oc.len() == cols.len());
+//@loop 1 it
+            invariant_except_break
+                split == false,
+            invariant
+                index == it.index@,
+                oc.len() <= usize::MAX,
+                oc.len() == cols@.len(),
+                forall|i: int| 0 <= i < it.index@ ==> cols@[i] == oc[i],
+                forall|i: int| 0 <= i < it.index@ ==> (#[trigger] oc[i]).max < column,
+                it.iter.remaining().len() + it.index@ == oc.len(),
+                forall|j: int| 0 <= j < it.iter.remaining().len() ==> *#[trigger] it.iter.remaining()[j] == oc[it.index@ + j],
+                forall|j: int| 0 <= j < it.iter.remaining().len() ==> *final(#[trigger] it.iter.remaining()[j]) == cols@[it.index@ + j],
+            ensures
+                index <= oc.len(),
+                cols@ =~= oc,
+                split ==> index < oc.len() && covers(oc[index as int], column as int),
+                !split ==> index == oc.len() || column < oc[index as int].min,
+//@before `let min = c.min;`
+                assert(it.iter.remaining().len() >= 1);
+                assert(*c == oc[index as int]);
+//@before `split = true;`
+                proof {
+                    axiom_iter_mut_dropped(&it.iter);
+                    assert forall|j: int| index < j < oc.len() implies cols@[j] == oc[j] by {
+                        let t = it.iter.remaining()[j - index];
+                    }
+                }
+//@before#2 `break;`
+                proof {
+                    axiom_iter_mut_dropped(&it.iter);
+                    assert forall|j: int| index < j < oc.len() implies cols@[j] == oc[j] by {
+                        let t = it.iter.remaining()[j - index];
+                    }
+                }
+//@before `let min = cols[index].min;`
+            let ghost k = index as int;
+            proof { lemma_wf_cover(oc, column as int, k); }
+//@before `cols.remove(index);`
+            let ghost with_mid = custom_width || col.hidden;
+//@before `Ok(())`
+        proof {
+            if split {
+                let k = index as int;
+                let c = oc[k];
+                let pre = Col { min: c.min, max: (column - 1) as i32, width: c.width, custom_width: c.custom_width, style: c.style, hidden: c.hidden };
+                let col = Col { min: column, max: column, width: c.width, custom_width: c.custom_width, style: None, hidden: c.hidden };
+                let post = Col { min: (column + 1) as i32, max: c.max, width: c.width, custom_width: c.custom_width, style: c.style, hidden: c.hidden };
+                let with_mid = c.custom_width || c.hidden;
+                assert(cols@ =~= oc.subrange(0, k) + split_mids(c, column as int, pre, col, post, with_mid) + oc.subrange(k + 1, oc.len() as int));
+                lemma_split(oc, cols@, k, column as int, pre, col, post, with_mid);
+                if with_mid {
+                    let j = choose|j: int| 0 <= j < cols@.len() && covers(#[trigger] cols@[j], column as int) && cols@[j] == col;
+                    lemma_wf_cover(cols@, column as int, j);
+                } else {
+                    lemma_no_cover(cols@, column as int);
+                }
+            } else {
+                assert(cols@ =~= oc);
+                lemma_same_view_refl(oc, column as int);
+                assert forall|j: int| 0 <= j < oc.len() implies !covers(#[trigger] oc[j], column as int) by {
+                    if j < index { } else { assert(oc[index as int].min <= oc[j].min) by { if j > index { assert(oc[index as int].max < oc[j].min); } } }
+                }
+                lemma_no_cover(oc, column as int);
+            }
+        }
+//@end
+
+//@fn base/src/worksheet.rs Worksheet::set_style
+//@spec
+    ensures
+        cols_wf(final(self).cols@), r.is_ok(),
+        forall|x: int| 1 <= x <= 16384 ==> #[trigger] style_at(final(self).cols@, x) == Some(style_index),
+//@rewrite `-> Result<(), String>` => `-> (r: Result<(), String>)`
+//@before `Ok(())`
+        proof {
+            assert forall|x: int| 1 <= x <= 16384 implies #[trigger] style_at(self.cols@, x) == Some(style_index) by {
+                assert(is_first_cover(self.cols@, x, 0));
+                lemma_first_cover_unique(self.cols@, x, 0);
+            }
+        }
 //@end
 }
 
